@@ -350,14 +350,3 @@ package mpt
 //@ ensures[refused] len(key) == 0 || len(key) > MaxKeyLength || len(value) > MaxValueLength || value == nil ==> result != nil && ncalls(putIntoNode) == 0
 //@ ensures[admitted] !(len(key) == 0 || len(key) > MaxKeyLength || len(value) > MaxValueLength || value == nil) ==> ncalls(putIntoNode) == 1
 
-// (C11) Flush applies every pending delta once: a node with a non-zero delta gets its count record
-// rewritten (reference-counting modes, under the key made of its own hash) or, without reference
-// counting, is stored iff the delta is positive, with the node's own bytes; only entries without a
-// pending delta, or whose count dropped to zero, leave the cache.
-//@ prop C11
-//@ func (*Trie).Flush
-//@ may-panic
-//@ opt frame off
-//@ requires t != nil && t.refcount != nil
-//@ call updateRefCount requires[own] arg1 == h && node.refcount != 0 && node.bytes != nil && len(arg2) == 33 && forall(k, 0, 32, arg2[1+k] == h[k]) && arg3 == index
-//@ call MemCachedStore).Put requires[stored] node.refcount > 0 && same(arg2, node.bytes) && len(arg1) == 33 && forall(k, 0, 32, arg1[1+k] == h[k]) && t.mode & ModeGCFlag == 0
